@@ -34,7 +34,7 @@ func (t *vhCoopClient) Receive(ctx context.Context) (envelope, error) {
 		s.SetAuthentication(&GuestAuthentication{})
 		return s, nil
 	case p < 2+t.msgs:
-		m := &Message{Envelope: Envelope{ID: t.name + "-msg"}, Type: MediaTypeTextPlain(), Content: TextDocument("hi")}
+		m := &Message{Envelope: Envelope{ID: vConcat(t.name, []string{"-msg0", "-msg1", "-msg2"}[p-2])}, Type: MediaTypeTextPlain(), Content: TextDocument("hi")}
 		t.sentMsgs = append(t.sentMsgs, m)
 		return m, nil
 	}
@@ -157,4 +157,93 @@ func HarnessC17Sessions() {
 	for i := 0; i < n; i++ {
 		vAssert(ts[i].closed, "c17:server-stop-closes-every-session-connection")
 	}
+}
+
+// vhKindsClient: a well-behaved client that sends one envelope of every kind once established.
+type vhKindsClient struct {
+	vhTransport
+	pos int
+}
+
+func (t *vhKindsClient) Receive(ctx context.Context) (envelope, error) {
+	if t.closed {
+		return nil, errVhStub
+	}
+	p := t.pos
+	t.pos++
+	switch {
+	case p == 0:
+		return &Session{State: SessionStateNew}, nil
+	case p == 1:
+		s := &Session{Envelope: Envelope{ID: vhSID, From: Node{Identity{"carol", "dom"}, "dev"}}, State: SessionStateAuthenticating}
+		s.SetAuthentication(&GuestAuthentication{})
+		return s, nil
+	case p < 6:
+		return vhEnvelopeOfKind(p-2, []string{"k0", "k1", "k2", "k3"}[p-2]), nil
+	}
+	<-ctx.Done()
+	return nil, ctx.Err()
+}
+
+type vhCtxSeen struct {
+	kind      int
+	sessionID string
+	hasID     bool
+	local     Node
+	remote    Node
+	hasNodes  bool
+}
+
+// HarnessC17Context: the handler of every envelope kind (message, notification, request command,
+// response command) runs with its session's id, local node and registered remote node in its context.
+func HarnessC17Context() {
+	var seen []vhCtxSeen
+	registered := Node{Identity{"carol-registered", "srv"}, "assigned"}
+	cfg := &ServerConfig{Node: Node{Identity{"postmaster", "srv"}, "i1"}, CompOpts: []SessionCompression{SessionCompressionNone},
+		EncryptOpts: []SessionEncryption{SessionEncryptionNone}, SchemeOpts: []AuthenticationScheme{AuthenticationSchemeGuest},
+		ChannelBufferSize: vParam("buf", 1),
+		Authenticate: func(ctx context.Context, id Identity, a Authentication) (*AuthenticationResult, error) {
+			return MemberAuthenticationResult(), nil
+		},
+		Register: func(ctx context.Context, candidate Node, c *ServerChannel) (Node, error) { return registered, nil },
+	}
+	note := func(ctx context.Context, kind int) {
+		sv := vhCtxSeen{kind: kind}
+		sv.sessionID, sv.hasID = ContextSessionID(ctx)
+		var ok1, ok2 bool
+		sv.local, ok1 = ContextSessionLocalNode(ctx)
+		sv.remote, ok2 = ContextSessionRemoteNode(ctx)
+		sv.hasNodes = ok1 && ok2
+		seen = append(seen, sv)
+	}
+	mux := &EnvelopeMux{}
+	mux.MessageHandlerFunc(nil, func(ctx context.Context, m *Message, s Sender) error { note(ctx, 0); return nil })
+	mux.NotificationHandlerFunc(nil, func(ctx context.Context, n *Notification) error { note(ctx, 1); return nil })
+	mux.RequestCommandHandlerFunc(nil, func(ctx context.Context, c *RequestCommand, s Sender) error { note(ctx, 2); return nil })
+	mux.ResponseCommandHandlerFunc(nil, func(ctx context.Context, c *ResponseCommand, s Sender) error { note(ctx, 3); return nil })
+	t := &vhKindsClient{}
+	t.enc, t.comp = SessionEncryptionNone, SessionCompressionNone
+	t.supEnc = []SessionEncryption{SessionEncryptionNone}
+	t.supComp = []SessionCompression{SessionCompressionNone}
+	srv := &Server{config: cfg, mux: mux}
+	sc := NewServerChannel(t, cfg.ChannelBufferSize, cfg.Node, vhSID)
+	ctx, cancel := context.WithCancel(context.Background())
+	go srv.handleChannel(ctx, sc)
+	vQuiesce()
+	vReach("c17:all-kinds-dispatched")
+	for k := 0; k < 4; k++ {
+		cnt := 0
+		for j := 0; j < len(seen); j++ {
+			if seen[j].kind != k {
+				continue
+			}
+			cnt++
+			vAssert(seen[j].hasID && seen[j].sessionID == vhSID, "c17:handler-context-of-every-kind-has-the-session-id")
+			vAssert(seen[j].hasNodes && seen[j].local == cfg.Node && seen[j].remote == registered, "c17:handler-context-of-every-kind-has-the-session-nodes")
+		}
+		vAssert(cnt == 1, "c17:every-kind-is-handled-once")
+	}
+	cancel()
+	vQuiesce()
+	vAssert(t.closed, "c17:server-stop-closes-the-connection")
 }
